@@ -24,13 +24,13 @@ open PyatvModel.C01 PyatvModel.C13 PyatvModel.Gen.C01 PyatvModel.Gen.C13
 
 theorem protoFeature_fresh_table :
     (Proto.all.all fun p => Feature.all.all fun f =>
-      protoFeature p (freshEnv true p).1 (freshEnv true p).2 f == state0 p f) = true := by
+      protoFeature p (freshEnv true false p f).1 (freshEnv true false p f).2 f == state0 p f) = true := by
   decide +kernel
 
 /-- the modelled get_feature of every protocol answers, in the fresh state, what the real
     object answered when the tables were regenerated -/
 theorem protoFeature_fresh (p : Proto) (f : Feature) :
-    protoFeature p (freshEnv true p).1 (freshEnv true p).2 f = state0 p f := by
+    protoFeature p (freshEnv true false p f).1 (freshEnv true false p f).2 f = state0 p f := by
   have := protoFeature_fresh_table
   rw [List.all_eq_true] at this
   have := this p (Proto.mem_all p)
@@ -120,7 +120,7 @@ theorem fresh_reported_is_backed (S : PSet) (hS : S.nonempty = true) (video : Bo
 /-! ### Non-vacuity -/
 
 /-- the hypothesis is met: Companion alone reports PowerState once its power state is known … -/
-example : facadeFeature ⟨false, false, true, false, false⟩ (fun _ => (true, false)) .f_PowerState = .available := by
+example : facadeFeature ⟨false, false, true, false, false⟩ (fun _ _ => (true, false)) .f_PowerState = .available := by
   decide
 /-- … and not before -/
 example : facadeFeature ⟨false, false, true, false, false⟩ (freshEnv true) .f_PowerState = .unsupported := by
